@@ -550,7 +550,7 @@ theorem sourceStep_step {s : State} {t : T} (h : Shape s t) (acc : LinkAcc) (src
         adds_flagWrite h hi (NoStruct.refl s) h1 true (fun _ _ => ⟨rfl, rfl⟩) h2 (by rw [hcr']; rfl)
       exact ⟨hc, 0, rfl, AddsR.single a ⟨fun _ => rfl, fun hn => absurd ⟨n, h1, h2⟩ hn⟩⟩
 
-theorem batchSources_cons (s : State) (src : Bytes) (tgts : List Bytes) (rest : List (Bytes × List Bytes))
+theorem batchSources_cons_ps (s : State) (src : Bytes) (tgts : List Bytes) (rest : List (Bytes × List Bytes))
     (acc : LinkAcc) :
     batchSources s ((src, tgts) :: rest) acc =
       match sourceStep s acc src with
@@ -578,7 +578,7 @@ theorem batchSources_step : ∀ (data : List (Bytes × List Bytes)) (s : State) 
     exact ⟨0, rfl, AddsR.nil (Adds.refl hi)⟩
   | (src, tgts) :: rest, s, t, acc, h => by
     obtain ⟨t1, x1, f1⟩ := sourceStep_step h acc src
-    rw [batchSources_cons]
+    rw [batchSources_cons_ps]
     split
     · rename_i s1 e heq
       rw [heq] at x1
@@ -926,7 +926,7 @@ theorem batchSources_err : ∀ (data : List (Bytes × List Bytes)) (s : State) (
     (batchSources s data acc).2 = .error e → e = .other "KeyError"
   | [], s, acc, e, h => by simp [batchSources] at h
   | (src, tgts) :: rest, s, acc, e, h => by
-    rw [batchSources_cons] at h
+    rw [batchSources_cons_ps] at h
     split at h
     · rename_i s1 e' heq
       have := sourceStep_err s acc src e' (by rw [heq])
